@@ -102,6 +102,16 @@ func genC09(t *rapid.T) C09Case {
 		c.Config = `{"BaseDir":"./","ShowWarnFlag":1,"IgnoreFileVars":[{"File":"gm.lua","Vars":["IgA"]},{"File":"port/gm.lua","Vars":["IgB"]},{"File":"port/","Vars":["IgA","IgB"]}],` +
 			`"IgnoreFileErrTypes":[{"File":"gm.lua","Types":[4]},{"File":"port/gm","Types":[5]}]}`
 	}
+	// the same ---@class / ---@alias name declared in several files: the "duplicate annotate type"
+	// warnings (type 18) are computed from a project-wide list of the declarations
+	if rapid.IntRange(0, 3).Draw(t, "dupClass") == 0 {
+		n := rapid.IntRange(2, 5).Draw(t, "dupClassFiles")
+		for i := 0; i < n; i++ {
+			c.WS.Files = append(c.WS.Files, WSFile{Path: fmt.Sprintf("dupc/decl%d.lua", i),
+				Text: fmt.Sprintf("---@class DupCls\n---@field f%d number\nlocal dc%d = {}\n---@alias DupAli number\nprint(dc%d)\n", i, i, i)})
+		}
+		c.WS.Files = append(c.WS.Files, WSFile{Path: "dupc/use.lua", Text: "---@type DupCls\nlocal du = nil\n---@type DupAli\nlocal da = nil\nprint(du, da)\n"})
+	}
 	// a function with annotated parameters called with too few arguments from many files: the
 	// "fewer arguments than parameters" warning needs the definition's annotation, which the file
 	// workers look up lazily in a record they share
